@@ -24,6 +24,12 @@ pub fn ban_take() -> (Vec<IpAddr>, Vec<NodeId>) {
     (ips, nodes)
 }
 
+/// A who-are-you query as the handler hands it to the service when a packet from an unknown
+/// session arrives (`HandlerOut::WhoAreYou`).
+pub fn whoareyou_ref(node_address: crate::NodeAddress, message_nonce: [u8; 12]) -> WhoAreYouRef {
+    WhoAreYouRef::verif_new(node_address, message_nonce)
+}
+
 /// Resets the global permit/ban list.
 pub fn ban_reset() {
     *PERMIT_BAN_LIST.write() = crate::PermitBanList::default();
